@@ -2,7 +2,6 @@
 Generates Python code for dataclasses from IRSchema objects.
 """
 
-import json
 import logging
 from typing import List, Tuple
 
@@ -10,6 +9,7 @@ from pyopenapi_gen import IRSchema
 from pyopenapi_gen.context.render_context import RenderContext
 from pyopenapi_gen.core.utils import NameSanitizer
 from pyopenapi_gen.core.writers.python_construct_renderer import PythonConstructRenderer
+from pyopenapi_gen.core.writers.text_escape import escape_docstring_text, python_string_literal
 from pyopenapi_gen.helpers.type_resolution.finalizer import TypeFinalizer
 from pyopenapi_gen.types.services.type_service import UnifiedTypeService
 
@@ -86,7 +86,9 @@ class DataclassGenerator:
         context.add_import("dataclasses", "field")
         context.add_import("typing", "Any")
 
-        description = schema.description or "Generic JSON value object that preserves arbitrary data."
+        description = escape_docstring_text(
+            schema.description or "Generic JSON value object that preserves arbitrary data."
+        )
 
         # Determine value type from additionalProperties
         value_type = "Any"
@@ -376,8 +378,7 @@ converter.register_unstructure_hook({class_name}, _unstructure_{class_name.lower
                     return f"{ps.name}.{enum_member_name}"
 
             if isinstance(ps.default, str):
-                escaped_inner_content = json.dumps(ps.default)[1:-1]
-                return '"' + escaped_inner_content + '"'
+                return python_string_literal(ps.default)
             elif isinstance(ps.default, bool):
                 return str(ps.default)
             elif isinstance(ps.default, (int, float)):
